@@ -973,7 +973,8 @@ void caseSimplify(vh::Ctx& c) {
     return;
   }
   TolFloor(c, fw, S, kind, prog());
-  if (useSet) {
+  if (useSet && fw.broken) c.count("settolerance_report_skipped_input_already_below_epsilon");
+  if (useSet && !fw.broken) {
     // SetTolerance reports max(t, epsilon)
     double got = S.GetTolerance(), want = std::max(t, eps), want2 = std::max(t, S.GetEpsilon());
     c.count("settolerance_report_checks");
